@@ -520,9 +520,10 @@ impl TaskEmitter {
         };
         *seq += 1;
 
-        let _ = self.sender.send(event.clone());
+        // Record before publishing (see session::emit_event): subscribers subscribe, then snapshot.
         let mut guard = self.events.lock().await;
         guard.push(event.clone());
+        let _ = self.sender.send(event.clone());
         let _ = self.event_log.append(&event);
     }
 }
